@@ -36,7 +36,7 @@ Proof.
            (length (flds m)) 0%nat); try lia.
   - apply init_inv. symmetry. eapply all2_length; eauto.
   - exact Hmix.
-  - rewrite br_len_mk. cbn [length]. lia.
+  - rewrite br_len_mk, br_pos_mk. cbn [length]. lia.
 Qed.
 
 Lemma wf_value_0 sc mi vs : wf_value 0 sc mi vs = true -> exists m, nth_error sc mi = Some m /\ flds m = [] /\ vs = [].
